@@ -83,7 +83,7 @@ pub struct Case {
     pub dp: DpSpec,
 }
 
-const UNSUPPORTED: [&str; 24] = [
+const UNSUPPORTED: [&str; 28] = [
     "SELECT {t}.* FROM {t}",
     "SELECT * FROM {t}, {u}",
     "SELECT {c}, COUNT(*) FROM {t} GROUP BY ALL",
@@ -108,6 +108,11 @@ const UNSUPPORTED: [&str; 24] = [
     "SELECT {c} FROM {t} TABLESAMPLE BERNOULLI (10)",
     "SELECT COUNT(*) FILTER (WHERE {c} > 0) FROM {t}",
     "SELECT {c}::text FROM {t} WHERE {c} BETWEEN 1 AND 2 OR {c} LIKE 'a%'",
+    // CTE column alias lists: shorter than, equal to and longer than the body's select list
+    "WITH w0(z1) AS (SELECT {c}, {c} AS other FROM {t}) SELECT z1, other FROM w0",
+    "WITH w0(z1, z2) AS (SELECT {c}, {c} AS other FROM {t}) SELECT z2 FROM w0",
+    "WITH w0(z1, z2, z3) AS (SELECT {c} FROM {t}) SELECT z1 FROM w0",
+    "SELECT s.z1 FROM (SELECT {c}, {c} AS other FROM {t}) AS s(z1)",
 ];
 
 fn render_sql(case: &Case) -> (String, Vec<&'static str>) {
